@@ -129,6 +129,9 @@ func run(c *fw.Ctx) {
 	mine := func() bool { idx++; return c.Mine(idx) }
 	nontriv := int64(0)
 
+	// (0) sequences of conversions (non-initial states)
+	seqPart(c, mine)
+
 	// (1) all small integers
 	lim := int64(1000000)
 	if c.Thorough() {
@@ -288,6 +291,10 @@ func replay(c *fw.Ctx, raw json.RawMessage) {
 		panic(err)
 	}
 	switch k.Kind {
+	case "seq":
+		var sc seqCase
+		json.Unmarshal(raw, &sc)
+		seqOne(c, sc.A, sc.B, sc.Dec)
 	case "int":
 		n, _ := new(big.Int).SetString(k.N, 10)
 		checkInt(c, n)
@@ -304,7 +311,8 @@ func main() {
 		ID: "C18", Level: "exploration",
 		Rule: "bounded-exhaustive enumeration: every integer below the limit, 10^k+d / 2^k+d (k<=78/256, |d|<=2) and negatives, " +
 			"all 78-digit numbers with <=3 non-zero digits {1,5,9} at boundary positions, and integer-part set x every fractional " +
-			"digit string over {0,1,5,9} up to L digits left-padded to every position 1..18; oracle = exact big.Rat value. " +
+			"digit string over {0,1,5,9} up to L digits left-padded to every position 1..18; oracle = exact big.Rat value; " +
+			"all ordered pairs over 15 strings x 4 decimals as call sequences (results not aliased, arguments untouched, same value on later use). " +
 			"Every enumerated case is distinct by construction; non-trivial = has a non-zero fractional part or >6 digits or is negative (small ints counted too, they exercise the padding branch).",
 		Assumptions: []string{"math/big Rat/Int arithmetic is exact", "values outside the enumerated alphabets are not covered"},
 		Run:         run, Replay: replay,
